@@ -141,11 +141,20 @@ func (w *zzC03World) checkAll() {
 	}))
 }
 
-func zzC03(scope KeyScope, steps int, startUnlocked bool) { zzC03Seed(zzSeedA, scope, steps, startUnlocked) }
+func zzC03(scope KeyScope, steps int, startUnlocked bool) {
+	zzC03Seed(zzSeedA, scope, steps, startUnlocked)
+}
 
 func zzC03Seed(seed []byte, scope KeyScope, steps int, startUnlocked bool) {
 	w := &zzC03World{zzMgrWorld: zzNewMgrWorld(seed), scope: scope}
-	if len(seed) == len(zzSeedLegacy) && seed[3] == zzSeedLegacy[3] && seed[0] == 0 {
+	if len(seed) == len(zzSeedLegacyPurpose) && seed[3] == zzSeedLegacyPurpose[3] && seed[2] == 1 {
+		k, err := w.root.DeriveNonStandard(scope.Purpose + hdkeychain.HardenedKeyStart) // nolint:staticcheck
+		zzMust(err)
+		if k.IsAffectedByIssue172() {
+			verifrt.Reach("legacy-rule-differs-from-bip32-at-the-coin-type-key")
+		}
+	}
+	if len(seed) == len(zzSeedLegacy) && seed[3] == zzSeedLegacy[3] && seed[0] == 0 && seed[2] == 0 {
 		// the seed was chosen for this: check it, so that the entry is not vacuous
 		k, err := w.root.DeriveNonStandard(scope.Purpose + hdkeychain.HardenedKeyStart) // nolint:staticcheck
 		zzMust(err)
@@ -165,11 +174,12 @@ func zzC03Seed(seed []byte, scope KeyScope, steps int, startUnlocked bool) {
 	verifrt.Reach("c03-end")
 }
 
-func ZzC03Bip84L2()  { zzC03(KeyScopeBIP0084, 2, true) }
-func ZzC03Bip84L3()  { zzC03(KeyScopeBIP0084, 3, true) }
-func ZzC03Bip84L3Locked() { zzC03(KeyScopeBIP0084, 3, false) }
-func ZzC03Bip44L3()  { zzC03(KeyScopeBIP0044, 3, true) }
-func ZzC03Bip49L3()  { zzC03(KeyScopeBIP0049Plus, 3, true) }
-func ZzC03Bip86L3()  { zzC03(KeyScopeBIP0086, 3, true) }
-func ZzC03Bip84L4()  { zzC03(KeyScopeBIP0084, 4, true) }
-func ZzC03LegacySeedL2() { zzC03Seed(zzSeedLegacy, KeyScopeBIP0084, 2, true) }
+func ZzC03Bip84L2()             { zzC03(KeyScopeBIP0084, 2, true) }
+func ZzC03Bip84L3()             { zzC03(KeyScopeBIP0084, 3, true) }
+func ZzC03Bip84L3Locked()       { zzC03(KeyScopeBIP0084, 3, false) }
+func ZzC03Bip44L3()             { zzC03(KeyScopeBIP0044, 3, true) }
+func ZzC03Bip49L3()             { zzC03(KeyScopeBIP0049Plus, 3, true) }
+func ZzC03Bip86L3()             { zzC03(KeyScopeBIP0086, 3, true) }
+func ZzC03Bip84L4()             { zzC03(KeyScopeBIP0084, 4, true) }
+func ZzC03LegacySeedL2()        { zzC03Seed(zzSeedLegacy, KeyScopeBIP0084, 2, true) }
+func ZzC03LegacyPurposeSeedL2() { zzC03Seed(zzSeedLegacyPurpose, KeyScopeBIP0084, 2, true) }
